@@ -5,6 +5,8 @@ open PhQVerif Generated
 #print axioms PhQVerif.Props.C02.class_entry_points_agree
 #print axioms PhQVerif.Props.C02.standard_unit_exact
 #print axioms PhQVerif.Props.C02.conversions_keep_precision
+#print axioms PhQVerif.Props.C02.scaling_kernel_constant
+#print axioms PhQVerif.Props.C02.read_back_in_the_same_unit
 #eval s!"COUNT C02.unit_entries {unitEntries.length}"
 #eval s!"COUNT C02.class_unit_entries {(quantityEntries.filter (fun e => e.enumArgs != [])).length}"
 #eval s!"COUNT C02.convert_pairs_f64 {(convertPairsByType64.map (fun t => t.2.length)).sum}"
